@@ -70,8 +70,17 @@ package hh
 //@   holds s.mu
 //@ func (*queue).addSegment
 //@   holds l.mu
+//@   props C04
+//@   nosafety
+//@   modifies l.tail, l.segments, l.segments[:]
+//@   ensures newest_segment_is_the_tail: result1 == nil ==> result0 != nil && l.tail == result0 && len(l.segments) == old(len(l.segments)) + 1 && l.segments[len(l.segments)-1] == result0 && all(k, 0, old(len(l.segments)), l.segments[k] == old_elem(l.segments, k))
 //@ func (*queue).trimHead
 //@   holds l.mu
+//@   props C04
+//@   nosafety
+//@   requires ends: len(l.segments) > 0 ==> l.head == l.segments[0] && l.tail == l.segments[len(l.segments)-1]
+//@   ensures ends_kept: result == nil && len(l.segments) > 0 ==> l.head == l.segments[0] && l.tail == l.segments[len(l.segments)-1]
+//@   ensures never_trims_the_last_segment: len(l.segments) > 0 || old(len(l.segments)) == 0
 //@ func (*queue).diskUsage
 //@   props C19
 //@   nosafety
@@ -101,3 +110,23 @@ package hh
 //@   dead ret3
 //@   ensures full_segment_is_flushed_first: result == ErrSegmentFull ==> flushed_before_full
 //@   ensures unbuffered_append_is_on_disk: result == nil && !buffered ==> flushed_unbuffered
+
+// ---- C04: the queue's ends: head is the oldest segment, tail the newest - appends go to the tail ----
+// An age purge of a queue whose only segment expired adds a fresh segment and trims the old one. Afterwards the
+// tail must be that fresh segment: left pointing at the closed segment, every later Append is refused.
+//@ func (*segment).close
+//@   assumed
+//@   modifies segment.all
+//@ func (*segment).lastModified
+//@   assumed
+//@   modifies nothing
+//@ func (*queue).nextSegmentID
+//@   assumed
+//@   modifies nothing
+
+//@ func (*queue).PurgeOlderThan
+//@   props C04
+//@   nosafety
+//@   requires ends: len(l.segments) > 0 ==> l.head == l.segments[0] && l.tail == l.segments[len(l.segments)-1]
+//@   loop 1 invariant ends: len(l.segments) > 0 && l.head == l.segments[0] && l.tail == l.segments[len(l.segments)-1]
+//@   ensures ends_kept: result == nil && len(l.segments) > 0 ==> l.head == l.segments[0] && l.tail == l.segments[len(l.segments)-1]
